@@ -33,6 +33,13 @@ THEOREMS = [
     "C13_constructor_zombie_witness",
     "C13_replace_ancestor_witness",
     "C13_replace_workflow_witness",
+    "C13_history_sixFixes",
+    "C13_walk_terminates",
+    "C13_walk_terminates_reachable",
+    "C13_walk_needs_acyclic",
+    "C13_ctor_zombie_witness",
+    "C13_workflow_ctor_witness",
+    "C13_load_orphans_witness",
 ]
 RULE = (
     "seeded random histories (4-28 ops) over 2-5 composites (strict/non-strict workflows, macros, a macro "
@@ -40,7 +47,11 @@ RULE = (
     "(constructor parent=, add_child with/without label and strict_naming, attribute and item assignment, "
     "parent assignment to a composite / None / a non-composite, remove_child by node and by label, "
     "replace_child by node and by label with a leaf, a macro, an ancestor, the composite itself or a workflow as "
-    "replacement, starting_nodes); half of the histories avoid the triggers of the known findings; plus the "
+    "replacement, by class assignment, constructors that raise after Lexical.__init__, Workflow(label, *nodes) with "
+    "early and late failures, load() in place, pickle round trips, starting_nodes); half of the histories avoid the "
+    "triggers of the known findings; observe-and-check scenarios (executor merge-back direct and through a real "
+    "process pool, For node re-runs, removal of a running child); a second exhaustive family over 31 operations "
+    "(constructors / class assignment / load / pickle mixed with adds and moves); plus the "
     "exhaustive histories of length <= 2 (quick) / <= 3 (thorough) over a 44-operation alphabet on 2 composites "
     "+ 3 nodes; non-trivial = at least 3 operations changed the ownership snapshot; distinct by canonical case"
 )
@@ -48,8 +59,10 @@ TRUSTED = [
     "model Tree.addChildCore/setParent/removeListed transcribe LexicalParent.add_child, Lexical._set_parent, "
     "Composite.remove_child/replace_child/__setattr__ and Workflow.parent by hand, including the state left "
     "behind by every raise; validated on the explored histories only",
-    "the variant flags (Cfg) of the model are set from seven micro-probes of the implementation (which of the "
-    "repairs F1-F7 are present in the tree under test); the oracle never looks at them",
+    "the variant flags (Cfg) of the model are set from nine micro-probes of the implementation (which of the "
+    "repairs F1-F9 are present in the tree under test); the oracle never looks at them",
+    "unpickling, executor merge-back, For-node rebuilds and running children are observed and judged by the oracle "
+    "only (invariant scan of the live object graph incl. discarded objects), not modelled",
     "class attributes of a composite (`super().__dir__()`) are read by reflection and handed to the model as "
     "a static parameter; Python's recursion limit is modelled by a fuel of 64 levels",
 ]
@@ -70,7 +83,9 @@ UNIVERSE = sorted(set(NODE_LABELS + ARG_LABELS + ["UserInput", "_parent"]
                       + [l + str(i) for l in NODE_LABELS + ARG_LABELS for i in range(4)]))
 TRIGGER = {"new": "construct", "add": "add_child", "setattr": "add_child", "setitem": "add_child",
            "setparent": "parent-assign", "remove": "remove_child", "removelbl": "remove_child",
-           "replace": "replace_child", "replacelbl": "replace_child", "setstart": "set-starting", "raw": "raw"}
+           "replace": "replace_child", "replacelbl": "replace_child", "setstart": "set-starting", "raw": "raw",
+           "newfail": "construct", "newwith": "construct", "replacecls": "replace_child",
+           "reload": "load-in-place", "pickle": "pickle-roundtrip"}
 
 
 # ----------------------------------------------------------------------------- generation
@@ -97,6 +112,7 @@ def _random_case(rng, tier):
         comps.append((rng.choice(["wf", "macro", "macro", "macro", "macroA"]), rng.random() < 0.5))
     world = _mk_world(comps, rng.randint(2, 6))
     avoid = rng.random() < 0.5
+    avoid_ctor = avoid or rng.random() < 0.3
     length = rng.randint(4, 18 if tier == "quick" else 28)
     creatable = [i for i, w in enumerate(world) if w["kind"] != "inner"]
     is_comp = lambda i: world[i]["kind"] in COMPOSITE  # noqa: E731
@@ -185,6 +201,41 @@ def _random_case(rng, tier):
                 ops.append(["remove", p, c])
             if own.get(c) == p:
                 own[c] = None
+        elif r < 0.835 and not avoid_ctor:
+            # constructors that raise after Lexical.__init__ / Workflow(label, *nodes) / class assignment /
+            # load in place / pickle round trip
+            q = rng.random()
+            fresh_nodes = [i for i in unborn if world[i]["kind"] != "wf"]
+            fresh_wfs = [i for i in unborn if world[i]["kind"] == "wf"]
+            if q < 0.3 and fresh_nodes:
+                c = rng.choice(fresh_nodes)
+                p = rng.choice(cs) if rng.random() < 0.85 else None
+                ops.append(["newfail", c, rng.choice(NODE_LABELS), p])
+            elif q < 0.6 and fresh_wfs:
+                c = rng.choice(fresh_wfs)
+                pool = [i for i in alive if world[i]["kind"] != "wf" or rng.random() < 0.1]
+                orphans = [i for i in pool if own.get(i) is None]
+                k = rng.randint(1, 3)
+                kids = [rng.choice(orphans if orphans and rng.random() < 0.8 else pool) for _ in range(k)] if pool else []
+                fails = rng.random() < 0.3
+                ops.append(["newwith", c, rng.choice(["v", "w", "x"]), kids, fails])
+                if not fails and len({lab.get(i) for i in kids}) == len(kids) and all(own.get(i) is None for i in kids):
+                    born(c, ops[-1][2], None)
+                    for i in kids:
+                        own[i] = c
+            elif q < 0.75:
+                p = rng.choice(cs)
+                kids = [i for i in alive if own.get(i) == p]
+                fresh_leaf = [i for i in unborn if world[i]["kind"] == "leaf"]
+                if kids and fresh_leaf:
+                    old, new = rng.choice(kids), rng.choice(fresh_leaf)
+                    ops.append(["replacecls", p, lab.get(old, "a"), new])
+                    born(new, lab.get(old, "a"), p)
+                    own[old] = None
+            elif q < 0.9:
+                ops.append(["reload", rng.choice(alive)])
+            else:
+                ops.append(["pickle", rng.choice(alive)])
         elif r < 0.88:
             p = rng.choice(cs)
             kids = [i for i in alive if own.get(i) == p]
@@ -238,6 +289,7 @@ def _random_case(rng, tier):
 
 EX_WORLD = _mk_world([("wf", True), ("macro", False)], 2)  # 0 wf, 1 macro, 2 inner, 3 leaf, 4 leaf
 EX_PREFIX = [["new", 0, "w", None], ["new", 1, "m", None], ["new", 3, "a", None], ["new", 4, "a", None]]
+EX_WORLD2 = EX_WORLD + [{"kind": "wf", "strict": True}, {"kind": "leaf", "strict": True}]
 
 
 def _ex_alphabet():
@@ -270,13 +322,45 @@ def _ex_alphabet():
     return al
 
 
+def _ex_alphabet2():
+    """second exhaustive family: the constructors that raise, Workflow(label, *nodes), class assignment, load in
+    place, pickle round trip, on EX_WORLD2 (0 wf, 1 macro, 2 inner, 3 leaf a, 4 leaf a, 5 wf unborn, 6 leaf unborn)"""
+    al = []
+    for p in (0, 1, None):
+        al.append(["newfail", 6, "x", p])
+    al.append(["newfail", 6, "a", 0])
+    for kids, fails in (([3], False), ([3, 4], False), ([3], True), ([4, 3, 1], False), ([0], False), ([3, 3], True)):
+        al.append(["newwith", 5, "v", kids, fails])
+    al.append(["replacecls", 0, "a", 6])
+    al.append(["replacecls", 1, "u", 6])
+    for c in (0, 1, 3):
+        al.append(["reload", c])
+        al.append(["pickle", c])
+    for p in (0, 1):
+        al.append(["add", p, 3, None, None])
+        al.append(["add", p, 4, "b", None])
+    al.append(["add", 0, 1, None, None])
+    al.append(["setparent", 3, 1])
+    al.append(["remove", 0, 3])
+    return al
+
+
 def gen_cases(rng, tier):
     al = _ex_alphabet()
     depth = 2 if tier == "quick" else 3
     for n in range(1, depth + 1):
         for seq in itertools.product(al, repeat=n):
             yield {"world": EX_WORLD, "ops": EX_PREFIX + [list(o) for o in seq]}
-    n_random = 500 if tier == "quick" else 12000
+    al2 = _ex_alphabet2()
+    for n in range(1, depth + 1):
+        for seq in itertools.product(al2, repeat=n):
+            if n == 3 and seq[2][0] in ("add", "setparent", "remove"):
+                continue  # the third step is one of the new operations
+            yield {"world": EX_WORLD2, "ops": EX_PREFIX + [list(o) for o in seq]}
+    # observe-and-check scenarios: ownership through the library's other mutating paths
+    for sc in _scenarios(rng, tier):
+        yield sc
+    n_random = 500 if tier == "quick" else 9000
     for _ in range(n_random):
         yield _random_case(rng, tier)
     # malformed stream: dead / unborn ids, non-composite targets, lines the driver must refuse
@@ -294,6 +378,19 @@ def gen_cases(rng, tier):
             ])
             ops.insert(k, bad)
         yield c
+
+
+def _scenarios(rng, tier):
+    n = 1 if tier == "quick" else 6
+    for extra in (0, 1, 2):
+        for nested in (False, True):
+            yield {"scenario": "merge-back", "extra": extra, "nested": nested, "real": False}
+    for _ in range(n):
+        yield {"scenario": "merge-back", "extra": rng.randint(0, 2), "nested": rng.random() < 0.5, "real": True}
+    for _ in range(2 * n):
+        yield {"scenario": "for-rerun", "lens": [rng.randint(1, 4) for _ in range(rng.randint(2, 4))]}
+    for how in ("node", "label", "parent-none", "reparent", "replace"):
+        yield {"scenario": "remove-running", "how": how}
 
 
 def corpus():
@@ -338,6 +435,20 @@ def corpus():
     yield {"world": wmm1, "ops": [["new", 0, "w", None], ["new", 5, "a", 0], ["setstart", 0, [5]],
                                   ["new", 1, "m", None], ["replacelbl", 0, "a", 1], ["replacelbl", 0, "zz", 5],
                                   ["replace", 0, 1, 5], ["replace", 0, 5, 5], ["replace", 0, 5, 3]]}
+    # KF-C13-11: a constructor with parent= that raises after Lexical.__init__ (unknown input keyword; a macro whose
+    # graph creator raises): the parent keeps listing the half-built object
+    wl = _mk_world([("wf", True), ("macro", True)], 2)  # 0 w, 1 m, 2 u, 3 leaf, 4 leaf
+    yield {"world": wl, "ops": [["new", 0, "w", None], ["newfail", 3, "x", 0]]}
+    yield {"world": wl, "ops": [["new", 0, "w", None], ["newfail", 1, "m", 0]]}
+    # KF-C13-12: Workflow(label, *nodes) raising half-way keeps the nodes adopted so far
+    ww = _mk_world([("wf", True), ("wf", True)], 3)  # 0 w, 1 v, 2 a, 3 a, 4 b
+    yield {"world": ww, "ops": [["new", 2, "a", None], ["new", 3, "a", None], ["newwith", 1, "v", [2, 3], False]]}
+    yield {"world": ww, "ops": [["new", 2, "a", None], ["new", 4, "b", None], ["newwith", 1, "v", [2, 4], True]]}
+    yield {"world": ww, "ops": [["new", 2, "a", None], ["new", 4, "b", None], ["newwith", 1, "v", [2, 4], False],
+                                ["replacecls", 1, "a", 3], ["pickle", 1], ["reload", 1]]}
+    # KF-C13-13: load() in place on an owned node orphans it while the owner keeps listing it
+    yield {"world": wl, "ops": [["new", 0, "w", None], ["new", 3, "a", 0], ["reload", 3]]}
+    yield {"world": wl, "ops": [["new", 0, "w", None], ["new", 1, "m", 0], ["reload", 1], ["pickle", 0]]}
     # a healthy history through every entry point, 4 levels deep
     big = _mk_world([("wf", True), ("macro", False), ("macroA", False)], 4)  # 0 w,1 m,2 ma,3 u1,4 u2,5..8
     yield {"world": big, "ops": [
@@ -391,7 +502,7 @@ def _reserved():
 
 
 def _variant():
-    """which of the repairs the implementation under test contains (seven micro-probes)"""
+    """which of the repairs the implementation under test contains (nine micro-probes)"""
     if "variant" in _CACHE:
         return _CACHE["variant"]
 
@@ -446,7 +557,29 @@ def _variant():
     quiet(lambda: m2.replace_child(b, r))
     f7 = (any(v is a for v in w.children.values()) and a.label == "a"
           and any(v is b for v in m2.children.values()) and b.label == "b")
-    _CACHE["variant"] = [int(bool(x)) for x in (f1, f2, f3, f4, f5, f6, f7)]
+    # F8 a constructor that raises after Lexical.__init__ lets go of what it took
+    w = mk("wf", "w")
+    quiet(lambda: _classes()["leaf"](label="x", parent=w, bogus=1))
+    a, b = mk("leaf", "a"), mk("leaf", "a")
+    quiet(lambda: _classes()["wf"]("v", a, b, autoload=None))
+    f8 = len(w.children) == 0 and a.parent is None
+    # F9 load() in place keeps the owner
+    import os
+    import tempfile
+
+    w, a = mk("wf", "w9"), mk("leaf", "a")
+    w.add_child(a)
+    here = os.getcwd()
+    with tempfile.TemporaryDirectory() as tmp:
+        os.chdir(tmp)
+        try:
+            a.save("pickle")
+            quiet(lambda: a.load("pickle"))
+            quiet(lambda: a.delete_storage("pickle"))
+        finally:
+            os.chdir(here)
+    f9 = a.parent is w
+    _CACHE["variant"] = [int(bool(x)) for x in (f1, f2, f3, f4, f5, f6, f7, f8, f9)]
     return _CACHE["variant"]
 
 
@@ -457,6 +590,31 @@ def _value_linked(parent, child):
                 or any(ch.value_receiver in child.inputs for ch in parent.inputs))
     except Exception:  # noqa: BLE001
         return True
+
+
+def _walk_paths(o, prefix=()):
+    """(label path below `o`, object) of every descendant"""
+    from pyiron_workflow.nodes.composite import Composite
+
+    if isinstance(o, Composite):
+        for k, v in list(o.children.items()):
+            yield prefix + (k,), v
+            yield from _walk_paths(v, prefix + (k,))
+
+
+def _paths(o, index_of):
+    return {path: index_of[id(z)] for path, z in _walk_paths(o) if id(z) in index_of}
+
+
+def _subtree(o, depth=0):
+    """ownership facts of `o` and everything below it, by label (no object identities)"""
+    from pyiron_workflow.nodes.composite import Composite
+
+    if not isinstance(o, Composite) or depth > 8:
+        return [o.label]
+    return [o.label,
+            [[k, v.label, v.parent is o, _subtree(v, depth + 1)] for k, v in o.children.items()],
+            [[v.label, any(v is w for w in o.children.values())] for v in o.starting_nodes]]
 
 
 def _exc_name(e):
@@ -473,6 +631,10 @@ def _exc_name(e):
         return "DuplicationError"
     if isinstance(e, RecursionError):
         return "RecursionError"
+    if type(e).__name__ == "CreatorFails" or (
+            type(e).__name__ == "ValueError" and "not found among available inputs" in str(e)):
+        # raised by the constructor's own set-up, after Lexical.__init__ went through
+        return "SetupError"
     for n in ("KeyError", "AttributeError", "ValueError", "TypeError"):
         if type(e).__name__ == n:
             return n
@@ -511,7 +673,132 @@ def _fmt(res, snap):
     return f"{res} | {ns} | {cs}"
 
 
+def _graph_scan(roots, tracked):
+    """the property's invariants on a live object graph: every composite reachable from `roots`, and every tracked
+    object (also discarded ones) must agree with the composite it names as parent"""
+    from pyiron_workflow.nodes.composite import Composite
+    from pyiron_workflow.workflow import Workflow
+
+    bad, todo, seen = [], list(roots), set()
+    while todo:
+        o = todo.pop()
+        if id(o) in seen or not isinstance(o, Composite):
+            continue
+        seen.add(id(o))
+        keys = list(o.children.keys())
+        if len(set(keys)) != len(keys):
+            bad.append(("sibling-labels", f"{o.label}: {keys}"))
+        for k, v in o.children.items():
+            if v.parent is not o:
+                bad.append(("agree", f"{o.label} lists {k!r} but that child names {getattr(v.parent, 'label', None)!r}"))
+            if v.label != k:
+                bad.append(("agree", f"{o.label} lists a child labelled {v.label!r} under {k!r}"))
+            if hasattr(type(o), k) or k in vars(o):
+                bad.append(("attribute-clash", f"{o.label} has a child under its own attribute name {k!r}"))
+            if isinstance(v, Workflow):
+                bad.append(("workflow-root", f"{o.label} lists the workflow {k!r}"))
+            todo.append(v)
+        for st in o.starting_nodes:
+            if not any(st is v for v in o.children.values()):
+                bad.append(("starting", f"starting node {st.label!r} of {o.label} is not one of its children"))
+    for x in tracked:
+        par = x.parent
+        if par is not None and not any(x is v and k == x.label for k, v in par.children.items()):
+            bad.append(("agree", f"{x.label!r} names {par.label!r} as parent but is not listed there under its label"))
+        hops, y = 0, x
+        while y is not None and hops < 100:
+            y, hops = y.parent, hops + 1
+        if hops >= 100:
+            bad.append(("parent-chain", f"following parents from {x.label!r} does not end"))
+    return [list(b) for b in bad]
+
+
+def _run_scenario(case):
+    import pickle
+
+    from pyiron_workflow.nodes.composite import Composite
+
+    from . import nodes_c13
+
+    cls = _classes()
+    name = case["scenario"]
+    stages = []
+    tracked = []
+
+    def everything(root):
+        out = [root]
+        for _p, z in _walk_paths(root):
+            out.append(z)
+        return out
+
+    def stage(tag, roots):
+        stages.append({"stage": tag, "bad": _graph_scan(roots, tracked)})
+
+    try:
+        if name == "merge-back":
+            wf = cls["wf"]("w", autoload=None)
+            host = wf
+            if case.get("nested"):
+                wf.outer = nodes_c13.MA()
+                host = wf.outer
+            host.m = nodes_c13.M()
+            for i in range(case.get("extra", 0)):
+                host.m.add_child(cls["leaf"](label=f"x{i}"))
+            tracked.extend(everything(wf))
+            stage("built", [wf])
+            if case.get("real"):
+                from concurrent.futures import ProcessPoolExecutor
+
+                with ProcessPoolExecutor(max_workers=1) as ex:
+                    host.m.executor = ex
+                    wf()
+                host.m.executor = None
+            else:
+                other = pickle.loads(pickle.dumps(host.m))
+                host.m._parse_remotely_executed_self(other)
+            tracked.extend(everything(wf))
+            stage("merged", [wf])
+        elif name == "for-rerun":
+            from pyiron_workflow.nodes.for_loop import for_node
+            from pyiron_workflow.nodes.standard import Add
+
+            wf = cls["wf"]("w", autoload=None)
+            wf.f = for_node(Add, iter_on=("obj",), obj=[0], other=1)
+            for k, n in enumerate(case["lens"]):
+                wf.f.inputs.obj = list(range(n))
+                wf()
+                tracked.extend(everything(wf))
+                stage(f"run{k}:{n}", [wf])
+        elif name == "remove-running":
+            wf, w2 = cls["wf"]("w", autoload=None), cls["wf"]("w2", autoload=None)
+            a = cls["leaf"](label="a", parent=wf)
+            wf.starting_nodes = [a]
+            a.running = True
+            tracked.extend([wf, w2, a])
+            how = case["how"]
+            if how == "node":
+                wf.remove_child(a)
+            elif how == "label":
+                wf.remove_child("a")
+            elif how == "parent-none":
+                a.parent = None
+            elif how == "reparent":
+                a.parent = w2
+            else:
+                b = cls["leaf"](label="b")
+                tracked.append(b)
+                wf.replace_child(a, b)
+            a.running = False
+            stage(how, [wf, w2])
+    except Exception as e:  # noqa: BLE001
+        stages.append({"stage": "raised", "bad": [], "raised": f"{type(e).__name__}: {str(e)[:200]}"})
+    return {"obs": [], "states": [], "scenario": stages, "changed": 3,
+            "stats": {f"scenario:{name}": 1}, "variant": _variant(), "reserved": _reserved()}
+
+
 def run_impl(case):
+    if "scenario" in case:
+        return _run_scenario(case)
     world = case["world"]
     variant = _variant()
     reserved = _reserved()
@@ -606,6 +893,82 @@ def run_impl(case):
                         res = "skip"
                     else:
                         objs[p].replace_child(objs[old] if kind == "replace" else old, objs[new])
+            elif kind == "newfail":
+                c, label, p = op[1], op[2], op[3]
+                if not (0 <= c < len(world)) or c in objs or world[c]["kind"] in ("inner", "wf") or (
+                        p is not None and p not in objs):
+                    res = "skip"
+                else:
+                    from . import nodes_c13
+
+                    known = {id(v) for v in objs.values()}
+                    try:
+                        if world[c]["kind"] == "leaf":
+                            _classes()["leaf"](label=label, parent=None if p is None else objs[p], bogus=1)
+                        else:
+                            nodes_c13.FAIL = True
+                            try:
+                                _construct(world[c]["kind"], label, world[c]["strict"], None if p is None else objs[p])
+                            finally:
+                                nodes_c13.FAIL = False
+                        res = "constructed"  # never: the set-up was made to raise
+                    except BaseException:
+                        if p is not None and comp(p):
+                            for z in objs[p].children.values():
+                                if id(z) not in known:
+                                    objs[c] = z
+                        raise
+            elif kind == "newwith":
+                c, label, kids, fails = op[1:5]
+                if not (0 <= c < len(world)) or c in objs or world[c]["kind"] != "wf" or any(k not in objs for k in kids):
+                    res = "skip"
+                else:
+                    known = {id(v) for v in objs.values()}
+                    kw = {"bogus": 1} if fails else {}
+                    try:
+                        o = _classes()["wf"](label, *[objs[k] for k in kids], autoload=None,
+                                             strict_naming=world[c]["strict"], **kw)
+                    except BaseException:
+                        for k in kids:
+                            z = objs[k].parent
+                            if z is not None and id(z) not in known:
+                                objs[c] = z
+                        raise
+                    objs[c] = o
+            elif kind == "replacecls":
+                p, key, new = op[1:4]
+                if not comp(p) or new in objs or not (0 <= new < len(world)) or world[new]["kind"] != "leaf" or (
+                        key not in objs[p].children):
+                    res = "skip"
+                else:
+                    setattr(objs[p], key, _classes()["leaf"])
+                    objs[new] = objs[p].children[key]
+            elif kind == "reload":
+                c = op[1]
+                if c not in objs:
+                    res = "skip"
+                else:
+                    o = objs[c]
+                    extra = {"observe": "reload"}
+                    paths = _paths(o, index_of={id(v): i for i, v in objs.items()})
+                    o.save("pickle")
+                    try:
+                        o.load("pickle")
+                    finally:
+                        o.delete_storage("pickle")
+                    # the user lets go of the discarded children and works with the loaded ones
+                    for path, z in _walk_paths(o):
+                        if path in paths:
+                            objs[paths[path]] = z
+            elif kind == "pickle":
+                c = op[1]
+                if c not in objs:
+                    res = "skip"
+                else:
+                    import pickle
+
+                    cp = pickle.loads(pickle.dumps(objs[c]))
+                    extra = {"observe": "pickle", "orig": _subtree(objs[c]), "copy": _subtree(cp)}
             elif kind == "setstart":
                 p, ids = op[1], op[2]
                 if not comp(p) or any(i not in objs for i in ids):
@@ -619,6 +982,10 @@ def run_impl(case):
         except Exception as e:  # noqa: BLE001
             res = _exc_name(e)
         snap = _snapshot(objs, world)
+        if kind in ("reload", "pickle") and res not in ("ok", "skip") and snap == prev:
+            # storage refused (e.g. a non-child that the user put among the starting nodes cannot be saved): not an
+            # ownership operation at all
+            res = "skip"
         if snap != prev:
             changed += 1
         states.append({"op": op, "res": res, "snap": snap, "extra": extra})
@@ -679,8 +1046,10 @@ def _walk(case, impl):
 
 
 def model_input(case, impl=None):
+    if "scenario" in case:
+        return []
     world = case["world"]
-    variant = impl["variant"] if impl else [0] * 7
+    variant = impl["variant"] if impl else [0] * 9
     reserved = impl["reserved"] if impl else {k: [] for k in COMPOSITE}
     lines = ["cfg " + " ".join(map(str, variant))]
     for i, w in enumerate(world):
@@ -691,6 +1060,9 @@ def model_input(case, impl=None):
     walk = _walk(case, impl) if impl else [(op, None, False) for op in case["ops"]]
     for op, st, resync in walk:
         if st is not None and st["res"] == "skip":
+            continue
+        observe = (st or {}).get("extra", {}).get("observe") if st else None
+        if observe == "pickle" or (st is None and op[0] == "pickle"):
             continue
         if resync:
             for i, l, p, _ok in st["snap"]["nodes"]:
@@ -730,12 +1102,22 @@ def model_input(case, impl=None):
             lines.append(f"replacelbl {op[1]} {_lbl(op[2])} {op[3]}")
         elif k == "setstart":
             lines.append(f"setstart {op[1]} " + " ".join(map(str, op[2])))
+        elif k == "newfail":
+            lines.append(f"newfail {op[1]} {_lbl(op[2])} {_opt(op[3])}")
+        elif k == "newwith":
+            lines.append(f"newwith {op[1]} {_lbl(op[2])} {int(bool(op[4]))} " + " ".join(map(str, op[3])))
+        elif k == "replacecls":
+            lines.append(f"replacecls {op[1]} {_lbl(op[2])} {op[3]}")
+        elif k == "reload":
+            lines.append(f"reload {op[1]}")
     return lines
 
 
 def corr_view(case, impl):
+    if "scenario" in case:
+        return []
     return [line for (_op, st, resync), line in zip(_walk(case, impl), impl["obs"])
-            if st["res"] != "skip" and not resync]
+            if st["res"] != "skip" and not resync and st.get("extra", {}).get("observe") != "pickle"]
 
 
 # ----------------------------------------------------------------------------- oracle (independent of the model)
@@ -760,8 +1142,17 @@ def _facts(world, op, prev, res):
             # Composite.__setattr__ turns this into  c.add_child(p, label="parent")
             f["trigger"] = "add_child"
             p, c, label = c, p, "parent"
-    elif kind == "new":
+    elif kind in ("new", "newfail"):
         c, label, p = op[1], op[2], op[3]
+        if kind == "newfail":
+            f["ctor"] = "raises-after-adoption"
+    elif kind == "newwith":
+        c = op[1]
+        f["ctor"] = "workflow-with-nodes"
+    elif kind == "reload":
+        c = op[1]
+    elif kind == "replacecls":
+        f["by_class"] = True
     elif kind == "remove":
         p, c = op[1], op[2]
     elif kind in ("replace", "replacelbl"):
@@ -869,6 +1260,15 @@ def _check_state(world, snap, excused=None):
 
 
 def oracle(case, r):
+    if "scenario" in case:
+        for st in r.get("scenario", []):
+            trig = "scenario:" + case["scenario"]
+            if st.get("raised") and case["scenario"] != "remove-running":
+                return [_fail("scenario-raised", 0, case, st["raised"], {"trigger": trig})]
+            if st["bad"]:
+                clause, detail = st["bad"][0]
+                return [_fail(clause, 0, case, f"stage {st['stage']}: {detail}", {"trigger": trig, "stage": st["stage"]})]
+        return []
     world = case["world"]
     prev = {"nodes": [], "comps": []}
     excused: dict = {}
@@ -887,6 +1287,13 @@ def oracle(case, r):
         for i, _ch, stt, _c in snap["comps"]:
             if i in excused:
                 excused[i] &= set(stt)
+        ex = st.get("extra") or {}
+        if ex.get("observe") == "pickle" and res == "ok":
+            if snap != prev:
+                return [_fail("observe-changed", k, op, "pickling changed the ownership of the original", facts)]
+            bad = _copy_bad(ex["orig"], ex["copy"])
+            if bad:
+                return [_fail("unpickle-agree", k, op, bad, facts)]
         if res != "ok" and snap != prev:
             facts["delta"] = _delta(prev, snap)
             return [_fail("rejected-changed", k, op,
@@ -900,6 +1307,31 @@ def oracle(case, r):
     return []
 
 
+def _copy_bad(orig, copy, where="/"):
+    """the unpickled copy must own what the original owns, each child naming its lister as parent"""
+    if orig[0] != copy[0]:
+        return f"{where}: label {orig[0]!r} became {copy[0]!r}"
+    if len(orig) != len(copy):
+        return f"{where}{orig[0]}: composite / leaf mismatch"
+    if len(orig) == 1:
+        return None
+    if [(k, l) for k, l, _m, _s in orig[1]] != [(k, l) for k, l, _m, _s in copy[1]]:
+        return f"{where}{orig[0]}: children {[(k, l) for k, l, _m, _s in orig[1]]} became {[(k, l) for k, l, _m, _s in copy[1]]}"
+    for (k, l, _mine, sub), (_k, _l, mine2, sub2) in zip(orig[1], copy[1]):
+        if not mine2:
+            return f"{where}{orig[0]}: the copy lists {k!r} but that child does not name it as parent"
+        if k != l:
+            return f"{where}{orig[0]}: the copy lists a child labelled {l!r} under {k!r}"
+        b = _copy_bad(sub, sub2, where + orig[0] + "/")
+        if b:
+            return b
+    if [x for x, _ in orig[2]] != [x for x, _ in copy[2]]:
+        return f"{where}{orig[0]}: starting nodes {orig[2]} became {copy[2]}"
+    if not all(m for _x, m in copy[2]):
+        return f"{where}{orig[0]}: a starting node of the copy is not one of its children"
+    return None
+
+
 def _fail(clause, k, op, detail, facts):
     sig = {"clause": clause}
     sig.update(facts)
@@ -907,6 +1339,8 @@ def _fail(clause, k, op, detail, facts):
 
 
 def shrink_candidates(case):
+    if "scenario" in case:
+        return
     ops = case["ops"]
     for i in range(len(ops) - 1, -1, -1):
         yield {"world": case["world"], "ops": ops[:i] + ops[i + 1:]}
